@@ -1,4 +1,5 @@
-import JanetModel.Wait.Mono
+import JanetModel.Wait.Bodies
+import JanetModel.Wait.Rounding
 import JanetModel.Gen.Wait
 /-
 C07 — a suspended fiber is resumed only by what it is currently waiting for.
@@ -67,7 +68,7 @@ theorem stale_inert (cfg : Cfg) (hc : cfg.allChecked = true) (w : World) :
     (∀ c items e rest, (w.chans c).wp = e :: rest → live w e.fiber e.schedId = false →
         chanPopWake cfg w c items = chanPopWake cfg { w with chans := set w.chans c { (w.chans c) with wp := rest } } c items) ∧
     (∀ c e, live w e.fiber e.schedId = false → closeOne cfg c w e = w) ∧
-    (∀ to : Timer, (∀ b, to.kind ≠ .deadline b) → live w to.fiber to.schedId = false → fireTimer cfg w to = w) ∧
+    (∀ tm : Timer, (∀ b, tm.kind ≠ .deadline b) → live w tm.fiber tm.schedId = false → fireTimer cfg w tm = w) ∧
     (∀ k st f g, w.procs k = some (f, g) → live w f g = false →
         (procExit cfg w k st).fibers = w.fibers ∧ (procExit cfg w k st).queue = w.queue) ∧
     (∀ s r v e f, (if r then (w.streams s).readFiber else (w.streams s).writeFiber) = some f → (w.fibers f).listener = none →
@@ -84,9 +85,9 @@ theorem stale_inert (cfg : Cfg) (hc : cfg.allChecked = true) (w : World) :
     rw [popLive_congr true { w with chans := set w.chans c { (w.chans c) with wp := rest } } w rfl]
   · intro c e hst
     simp [closeOne, hcl, hst]
-  · intro to hk hst
+  · intro tm hk hst
     unfold fireTimer
-    cases hkind : to.kind with
+    cases hkind : tm.kind with
     | deadline b => exact absurd hkind (hk b)
     | timeout => simp [htc, hst]
     | sleep => simp [htc, hst]
@@ -124,10 +125,10 @@ theorem sleep_not_early (cfg : Cfg) (hc : cfg.allChecked = true) (ops : List Op)
   exact ((run_inv cfg hc ops init_inv).l e he).sl s d hs
 
 /-- ★ a deadline fires only while the guarded body is resumable, and touches only the task it guards -/
-theorem deadline_scoped (cfg : Cfg) (hc : cfg.allChecked = true) (w : World) (to : Timer) (b : Nat) (hk : to.kind = .deadline b) :
-    (w.bodies b = false → fireTimer cfg w to = w) ∧
-    (∀ f, f ≠ to.fiber → (fireTimer cfg w to).fibers f = w.fibers f ∧
-        ∀ t ∈ (fireTimer cfg w to).queue, t.fiber = f → t ∈ w.queue) := by
+theorem deadline_scoped (cfg : Cfg) (hc : cfg.allChecked = true) (w : World) (tm : Timer) (b : Nat) (hk : tm.kind = .deadline b) :
+    (w.bodies b = false → fireTimer cfg w tm = w) ∧
+    (∀ f, f ≠ tm.fiber → (fireTimer cfg w tm).fibers f = w.fibers f ∧
+        ∀ t ∈ (fireTimer cfg w tm).queue, t.fiber = f → t ∈ w.queue) := by
   obtain ⟨-, -, -, -, -, -, hdc, -, -, -, -⟩ := allChecked_fields hc
   refine ⟨?_, ?_⟩
   · intro hb
@@ -198,6 +199,56 @@ theorem select_give_on_stale_readers_registers_when_unchecked :
     let w := run cfg init [.take 1 0 true, .cancel 1 (.err 2), .run]
     selectGiveReady cfg w 0 = true ∧ (chanPush cfg w 2 0 (.kw 7) true).2 = true ∧
       ((chanPush cfg w 2 0 (.kw 7) true).1.chans 0).wp.length = 1 := by decide
+
+/-- ★ deadline_scoped at full strength: once the body guarded by a deadline has finished (`bodyDone`, i.e. its fiber reached
+a dead / error status), the deadline is inert at EVERY later moment of EVERY continuation: firing it changes nothing.
+That a finished fiber never becomes resumable again is the status monotonicity of fibers (Props/C05 `status_monotone`,
+`finished_is_forever`); in this model it is part of the step relation (`bodyStart` on a finished body is a no-op). -/
+theorem deadline_inert_after_body_finished (cfg : Cfg) (hc : cfg.allChecked = true) (ops1 ops2 : List Op) (b : Nat) (tm : Timer)
+    (hk : tm.kind = .deadline b) (hdone : (run cfg init ops1).bodyDead b = true) :
+    (run cfg (run cfg init ops1) ops2).bodies b = false ∧
+    fireTimer cfg (run cfg (run cfg init ops1) ops2) tm = run cfg (run cfg init ops1) ops2 := by
+  have h1 := (run_body cfg ops1 init init_BInv).1
+  obtain ⟨h2, h3⟩ := run_body cfg ops2 _ h1
+  have hb := h2 b (h3 b hdone)
+  exact ⟨hb, (deadline_scoped cfg hc _ tm b hk).1 hb⟩
+
+/-- the end of a with-deadline body marks it finished -/
+theorem body_done_marks (cfg : Cfg) (w : World) (b : Nat) : (step cfg w (.bodyDone b)).bodyDead b = true := by
+  simp [step]
+
+/-- ★ sleep_not_early for the exact C expression `ts += (int64_t) round(delta * 1000)` on doubles.  `(ev/sleep δ)` with the
+double `δ` sets its timer `cMs fl δ` ms ahead (`sleepOp`), where `fl` is the rounding of the double product; assuming only that
+`fl` is monotone and leaves representable half-integers alone, the sleeper is resumed at a tick
+`≥ start + round(1000·δ)` for the REAL value of δ — in particular `≥ start + ⌊1000·δ⌋`: no whole millisecond is lost. -/
+theorem sleep_not_early_ieee (fl : ℚ → ℚ) (hmono : Monotone fl)
+    (hfix : ∀ k : ℤ, |k| ≤ 2 ^ 53 → fl ((k : ℚ) / 2) = (k : ℚ) / 2)
+    (δ : ℚ) (hrange : |2 * roundHalfUp (δ * 1000) - 1| ≤ 2 ^ 53)
+    (cfg : Cfg) (hc : cfg.allChecked = true) (ops : List Op) :
+    ∀ e ∈ (run cfg init ops).log, ∀ s, e.task.src = .sleep s (1000 * (cMs fl δ).toNat) →
+      (s : ℤ) + roundHalfUp (δ * 1000) ≤ e.tick ∧ (s : ℤ) + ⌊δ * 1000⌋ ≤ e.tick := by
+  intro e he s hs
+  have h := sleep_not_early cfg hc ops e he s _ hs
+  have hm : (1000 * (cMs fl δ).toNat + 500) / 1000 = (cMs fl δ).toNat := by omega
+  rw [hm] at h
+  have h1 := cMs_ge_exact fl hmono hfix δ hrange
+  have h2 := cMs_ge_floor fl hmono hfix δ hrange
+  have h3 : cMs fl δ ≤ ((cMs fl δ).toNat : ℤ) := Int.self_le_toNat _
+  have h4 : ((s + (cMs fl δ).toNat : ℕ) : ℤ) ≤ (e.tick : ℤ) := by exact_mod_cast h
+  push_cast at h4
+  constructor <;> omega
+
+/-- literal durations with microsecond digits: the double computation is at least the executable model's `deltaMs` -/
+theorem cMs_ge_model (fl : ℚ → ℚ) (hmono : Monotone fl)
+    (hfix : ∀ k : ℤ, |k| ≤ 2 ^ 53 → fl ((k : ℚ) / 2) = (k : ℚ) / 2) (us : ℕ) (hus : us ≤ 2 ^ 52) (cfg : Cfg)
+    (hr : cfg.sleepRounds = true) : ((deltaMs cfg us : ℕ) : ℤ) ≤ cMs fl ((us : ℚ) / 1000000) := by
+  have hrange : |2 * roundHalfUp ((us : ℚ) / 1000000 * 1000) - 1| ≤ 2 ^ 53 := by
+    rw [roundHalfUp_us, abs_le]
+    have : (us + 500) / 1000 ≤ 2 ^ 52 := by omega
+    constructor <;> push_cast <;> omega
+  have := cMs_ge_exact fl hmono hfix _ hrange
+  rw [roundHalfUp_us] at this
+  simpa [deltaMs, hr] using this
 
 /-! ### The pinned tree: two sites lack the generation check — witnesses (replayed on the implementation by the check) -/
 
